@@ -404,8 +404,9 @@ impl<'r, R: ReadValue> Fields<'r, R> {
     /// `context` is the name of the message type being read, for debugging
     /// purposes.
     pub fn new(reader: &'r mut R, context: Option<&'static str>) -> Self {
+        let len = reader.remaining().unwrap_or(u64::MAX);
         Self {
-            reader: LimitReader::new(reader, u64::MAX),
+            reader: LimitReader::new(reader, len),
             context,
             unconsumed_field: None,
         }
@@ -442,9 +443,14 @@ impl<'r, R: ReadValue> Fields<'r, R> {
         let value = match wire_type {
             0 => self.reader.read_varint().map(FieldValue::Varint),
             1 => self.reader.read_i64().map(FieldValue::I64),
-            2 => self.reader.read_varint().map(|val| {
+            2 => self.reader.read_varint().and_then(|val| {
+                // Fields cannot extend beyond the end of the enclosing
+                // message or the input.
+                if self.reader.remaining().is_some_and(|rem| val > rem) {
+                    return Err(ProtobufError::new(ErrorKind::Eof));
+                }
                 len = val;
-                FieldValue::Len(val)
+                Ok(FieldValue::Len(val))
             }),
             3 => Ok(FieldValue::Sgroup),
             4 => Ok(FieldValue::Egroup),
